@@ -69,7 +69,7 @@ Lemma dfxp_slots_inr : forall st0 st langs,
   Forall (slot_inr (length st0) (length st)) (dfxp_slots st langs).
 Proof.
   intros st0 st langs Hinv Hl. unfold dfxp_slots. eapply Forall_flat_map; [exact Hl|].
-  intros [k cl] [_ Hcl]. apply caps_slots_inr; auto.
+  intros [k cl] [_ Hcl]. constructor; [exact Hcl|]. apply caps_slots_inr; auto.
 Qed.
 
 Lemma sami_slots_inr : forall st0 st s,
